@@ -489,6 +489,8 @@ def check_c19(tier, seed, t0):
             legs.append(props.hx_leg("SG", profile=profile, features=feats, props=["C17", "C01"]))
         if "32_components" in feats:
             legs.append(props.hx_leg("SC32", profile=profile, features=feats, drop_world=True, props=["C02", "C04", "C12", "C01", "C06", "C07", "C09", "C13"] + (["C17"] if "events" in feats else [])))
+        # whole-population leg in every configuration (profile rel: the debug_checked_assume! paths are live at scale)
+        legs.append(props.hx_leg("POP", profile=profile, features=feats, sizes=[65537, 1048577]))
         if tier == "thorough" and profile == "rel" and feats == ("wrapping_version",):
             # the real 2^32 wraparound, without hooks
             legs.append(props.hx_leg("CYCLE", profile=profile, features=feats))
